@@ -7,7 +7,7 @@ import (
 
 //verif:witness H_C03_lines end
 //verif:bound C03 quick 2 goroutines x 1 event through one sync logger; console appender on a slow stream (yields before consuming the bytes) or file appender; text/JSON layout in the appender or at logger level; payload of 1 arbitrary byte per event; the buffer-reuse cap (BufferCap) is an arbitrary int32; sync.Pool.Get may return any pooled object or miss; pre-emption at yields, pool operations' callers' blocking points (1 pre-emptive switch)
-//verif:bound C03 thorough 2 goroutines x 1..2 events, pre-emption at every visible operation (2 pre-emptive switches)
+//verif:bound C03 thorough 2 goroutines x 1 event, pre-emption at every visible operation (2 pre-emptive switches)
 //verif:assume C03 the sink consumes the slice it was given after an arbitrary delay (modelled as one yield before reading it); one write(2) per Write call is whole (file-system model)
 //verif:assume C03 more than 2 goroutines are outside the bound (the defect class - a pooled buffer handed out while a write is in flight - needs two)
 
@@ -50,9 +50,6 @@ func H_C03_lines() {
 	logger.AppenderRefs.AppenderRefs = []*AppenderRef{{Appender: &ConsoleAppender{Layout: lay}, Level: LevelRange{MinLevel: NoneLevel, MaxLevel: MaxLevel}}}
 	tag := &Tag{tag: "_t_x", logger: logger}
 	nper := 1
-	if vTier() > 0 {
-		nper = 1 + vChoose("perGoroutine", 2)
-	}
 	msgs := [4]string{"a" + vString("p0", 1), "bb" + vString("p1", 1), "ccc" + vString("p2", 1), "dddd" + vString("p3", 1)}
 	var want [][]byte
 	for g := 0; g < 2; g++ {
